@@ -357,7 +357,13 @@ def run(ctx: Check, tree: Tree) -> None:
         "R-WIRING (shared with C05): the axis-angle rotation chain binds every Wigner D to the outer helicity symbol and the next free summation index",
         "R-GROUPKEY: the incoherent sum over outer spin projections is complete: the grouping key separates every (particle, projection) of the outer states",
     ]
-    ctx.not_decided += ["numerical invariance of the intensity under rotations", "Wigner rotations of the axis-angle alignment (matrix products of boosts)"]
+    ctx.not_decided += [
+        "numerical invariance of the intensity under rotations",
+        "Wigner rotations of the axis-angle alignment (matrix products of boosts)",
+        "reproduced on the unchanged tree and outside every structural clause decided here (DESIGN.md 9.4): (a) half-integer spins with two interfering topologies and axis-angle alignment - "
+        "the Euler angles are read off an SO(3) matrix with atan2/acos, D^(1/2) needs them modulo 4 pi: Lambda_c+ -> p K- pi+ via Lambda(1520) and Delta(1232)++ changes by ~35% for 10-14 of 200 events under a rotation; "
+        "(b) Dalitz-plot decomposition with two topologies: the combined amplitudes keep their lab-frame production angles, J/psi -> K0 Sigma+ p~ via Sigma(1660)~- and N(1650)+ changes by 4-7% (median) for every event",
+    ]
     ctx.assumptions += ["qrules Topology API (get_edge_ids_*, edges) behaves as documented", "is_opposite_helicity_state is a total order on siblings (tuple comparison of attached final states)"]
     ctx.section(check_prov, ctx, tree, [ANGLES], min_stores=4)
     ctx.section(check_frame, ctx, tree)
